@@ -20,8 +20,8 @@ SHARD_TIMEOUT = {"quick": 1500, "thorough": 14000}
 
 
 def shards(tier, seed):
-    ni, nn, nl = {"quick": (50, 8, 1), "thorough": (2500, 200, 12)}[tier]
-    return [{"n_ideal": ni, "n_nonideal": nn, "n_long": nl} for _ in range(16)]
+    ni, nn, nl, nc = {"quick": (50, 8, 1, 12), "thorough": (2500, 200, 12, 400)}[tier]
+    return [{"n_ideal": ni, "n_nonideal": nn, "n_long": nl, "n_coarse": nc} for _ in range(16)]
 
 
 def cases(spec):
@@ -31,6 +31,8 @@ def cases(spec):
         yield i, proc.KINDS[:2]
     for i in range(spec["n_nonideal"]):
         yield 100000 + i, proc.KINDS[2:]
+    for i in range(spec.get("n_coarse", 0)):
+        yield 300000 + i, proc.KINDS[:2]
 
 
 def run_shard(spec, rep):
@@ -41,8 +43,9 @@ def run_shard(spec, rep):
         if rep.n_violations >= 20:
             break
         rng = gen.case_rng(PROP, spec["seed"], spec["shard"], index)
-        sc = proc.Scenario(rng, kinds=kinds)
-        if index >= 200000:
+        # coarse steps (a step may strip a component or the whole feed: the library then raises, a returned run must balance)
+        sc = proc.Scenario(rng, kinds=kinds, coarse=True, max_steps=6) if index >= 300000 else proc.Scenario(rng, kinds=kinds)
+        if 200000 <= index < 300000:
             # a long run: more than a thousand steps (step-count dependent maintenance code, accumulated drift)
             sc.n = rng.randint(1001, 2300)
             if sc.dt is not None:
